@@ -3,7 +3,7 @@
     mapped to OCaml's; N, Z, positive, nat stay the extracted datatypes. *)
 Require Extraction.
 Require Import ExtrOcamlBasic.
-Require Import Model.Bytes Model.FieldDef Gen.FieldTable Model.RefTable Model.Fields Model.Spill Model.Policy Model.Validate Model.Stream Model.HeaderParse Model.Digest Model.Block Model.Record Model.Writer Model.Revisit Model.Resources.
+Require Import Model.Bytes Model.FieldDef Gen.FieldTable Model.RefTable Model.Fields Model.Spill Model.Policy Model.Validate Model.Stream Model.HeaderParse Model.Digest Model.Block Model.Record Model.Writer Model.Revisit Model.Resources Model.Protocol.
 Extraction Blacklist String List Bytes Char Int.
 Extraction "model.ml"
   FieldTable.field_table FieldTable.required_fields RefTable.reference_table RefTable.reference_required
@@ -17,4 +17,5 @@ Extraction "model.ml"
   Fields.m_set Record.build Record.marshal Record.unmarshal_plain Record.unmarshal_gz Record.read_all_plain Record.read_all_gz Record.raw_bytes
   Writer.w_run Writer.w_close Writer.w_init Writer.fsize
   Revisit.create_ref Revisit.to_revisit Revisit.merge Revisit.revisit_ref
-  Resources.builder_fill Resources.unmarshal_res Resources.reader_open Resources.close_all.
+  Resources.builder_fill Resources.unmarshal_res Resources.reader_open Resources.close_all
+  Protocol.init Protocol.succs Protocol.all_done.
